@@ -200,6 +200,40 @@ func (c *Ctx) dischargeIndex(in ssa.Instruction, x, idx ssa.Value) Result {
 	if okLB && lb >= 0 && c.LessThanLen(idx, x, in, true) {
 		return Result{true, "guarded-index", "0 <= index (lower bound " + itoa(lb) + ") and index < len by a dominating guard"}
 	}
+	// index a+k (k >= 0) under a guard a < len(x)-k' with k' >= k (or a <= len(x)-k' with k' > k):
+	// "not the last element, so the next one exists"
+	if bo, ok := stripIntConv(idx).(*ssa.BinOp); ok && bo.Op == token.ADD && okLB && lb >= 0 {
+		a, kv := bo.X, bo.Y
+		if _, isK := constInt(a); isK {
+			a, kv = kv, a
+		}
+		if k, isK := constInt(kv); isK && k >= 0 {
+			sa := stripIntConv(a)
+			for _, f := range c.FactsAt(in) {
+				if f.Op == token.ILLEGAL || f.Op == 0 {
+					continue
+				}
+				fx, fy, op := f.X, f.Y, f.Op
+				if c.Equiv(stripIntConv(fy), sa) {
+					fx, fy, op = fy, fx, flip(op)
+				} else if !c.Equiv(stripIntConv(fx), sa) {
+					continue
+				}
+				_ = fx
+				sub, isSub := stripIntConv(fy).(*ssa.BinOp)
+				if !isSub || sub.Op != token.SUB || !c.isLenOf(sub.X, x, in) {
+					continue
+				}
+				k2, isK2 := constInt(sub.Y)
+				if !isK2 {
+					continue
+				}
+				if (op == token.LSS && k2 >= k) || (op == token.LEQ && k2 > k) {
+					return Result{true, "guarded-index-offset", "index a+" + itoa(k) + " with a < len-" + itoa(k2) + " by a dominating guard"}
+				}
+			}
+		}
+	}
 	// range index over S with x = make([]T, len(S))
 	if ms, ok := x.(*ssa.MakeSlice); ok && okLB && lb >= 0 {
 		for _, f := range c.FactsAt(in) {
